@@ -51,6 +51,10 @@ func (r C11Rule) text() string {
 		b.WriteString("  FX(@name)\n  zz = 1 / 0\n  return " + r.Lit + "\n")
 	case "failinret":
 		b.WriteString("  FX(@name)\n  return 1 + \"a\"\n")
+	case "failunexp":
+		// the statements succeed and the rule reaches its return, but the returned value (read
+		// from an unexported field) cannot be handed out: the rule fails, so it has no entry
+		b.WriteString("  FX(@name)\n  hv = O.hid\n  return hv\n")
 	case "val":
 		b.WriteString("  E(@name)\n  return " + r.Lit + "\n")
 	case "valtag":
@@ -68,7 +72,9 @@ func (r C11Rule) text() string {
 	return b.String()
 }
 
-func (r C11Rule) fails() bool { return r.Kind == "failbefore" || r.Kind == "failinret" }
+func (r C11Rule) fails() bool {
+	return r.Kind == "failbefore" || r.Kind == "failinret" || r.Kind == "failunexp"
+}
 
 // returns reports whether the rule reaches a return when it runs with the given flag.
 func (r C11Rule) returns(flag bool) (bool, string) {
@@ -96,7 +102,7 @@ func litValue(l string) string {
 func init() {
 	register(&Prop{
 		ID:   "C11",
-		Rule: "rule sets of 2-8 rules (sometimes 20-40 for the concurrent models), each rule one of {returns a literal of any class, bare return, returns from inside nested if/for, no return, fails before its return, fails in its return expression, returns iff an injected flag is set}; sequences of 2-5 calls on the same engine or pool with changing methods (all 21/24 execute methods, selected lists, N-M splits, DAG layerings incl. empty layers and the empty DAG) and changing flag; oracle after every call: the result map equals exactly {rule -> value | the rule started in this call (by trace) and reaches a return under this call's flag}, nil for a bare return, nothing from earlier calls. Non-trivial: a sequence in which a rule that returned in one call must be absent in a later call, or a failing rule runs, or >= 8 rules publish results concurrently; distinct by case hash",
+		Rule: "rule sets of 2-8 rules (sometimes 20-40 for the concurrent models), each rule one of {returns a literal of any class, bare return, returns from inside nested if/for, no return, fails before its return, fails in its return expression, returns a value read from an unexported field (which fails when it is handed out), returns iff an injected flag is set}; sequences of 2-5 calls on the same engine or pool with changing methods (all 21/24 execute methods, selected lists, N-M splits, DAG layerings incl. empty layers and the empty DAG) and changing flag; oracle after every call: the result map equals exactly {rule -> value | the rule started in this call (by trace) and reaches a return under this call's flag}, nil for a bare return, nothing from earlier calls. Non-trivial: a sequence in which a rule that returned in one call must be absent in a later call, or a failing rule runs, or >= 8 rules publish results concurrently; distinct by case hash",
 		New:  func() interface{} { return &C11Case{} },
 		Gen: func(t *rapid.T) interface{} {
 			c := &C11Case{}
@@ -105,11 +111,11 @@ func init() {
 			if big {
 				n = uni(t, "nrules_big", 20, 40)
 			}
-			kinds := []string{"val", "val", "bare", "nested", "none", "failbefore", "failinret", "flag", "flag", "valtag"}
+			kinds := []string{"val", "val", "bare", "nested", "none", "failbefore", "failinret", "failunexp", "flag", "flag", "valtag"}
 			haveTagSetter := false
 			for i := 0; i < n; i++ {
 				k := kinds[uni(t, fmt.Sprintf("kind%d", i), 0, len(kinds)-1)]
-				if big && (k == "failbefore" || k == "failinret" || k == "valtag") {
+				if big && (k == "failbefore" || k == "failinret" || k == "failunexp" || k == "valtag") {
 					k = "val"
 				}
 				if k == "valtag" {
